@@ -36,7 +36,9 @@ def fmt(steps):
         if k in ("A", "T"): out.append(k + " " + rl(s[1]))
         elif k == "F": out.append("F %d" % s[1])
         elif k == "G": out.append("G %d%s" % (len(s[1]), "".join(" %d" % q for q in s[1])))
-        elif k in ("E", "C"): out.append(k)
+        elif k in ("E", "C", "Y", "W"): out.append(k)
+        elif k == "Z": out.append("Z " + rl(s[1]))
+        elif k == "H": out.append("H %d" % s[1])
         elif k == "R": out.append("R %d%s %d%s" % (len(s[1]), "".join(" %d" % q for q in s[1]), len(s[2]), "".join(" " + rl(r) for r in s[2])))
     return " ".join(out)
 
@@ -54,7 +56,9 @@ def parse(line):
         elif k == "F": steps.append(("F", int(t[i]))); i += 1
         elif k == "G":
             m = int(t[i]); i += 1; steps.append(("G", [int(x) for x in t[i:i + m]])); i += m
-        elif k in ("E", "C"): steps.append((k,))
+        elif k in ("E", "C", "Y", "W"): steps.append((k,))
+        elif k == "Z": steps.append(("Z", rule()))
+        elif k == "H": steps.append(("H", int(t[i]))); i += 1
         elif k == "R":
             m = int(t[i]); i += 1; ds = [int(x) for x in t[i:i + m]]; i += m
             m = int(t[i]); i += 1; ps = [rule() for _ in range(m)]
@@ -149,6 +153,25 @@ def targeted(rng, n):
         out.append(fmt(steps))
     return out
 
+def bystander_seq(rng):
+    """a copy of the automaton (sharing its copy-on-write storage at every level) is extended on its own, under parents and symbols the
+    automaton already has, while the automaton itself is extended and read: rules given to the copy must never show in the automaton"""
+    states = list(range(rng.randint(2, 5))); syms = list(range(rng.randint(1, 3)))
+    def rule(): return (rng.choice(syms), rng.choice(states), tuple(rng.choice(states + [7, 8]) for _ in range(rng.choice([0, 1, 1, 2]))))
+    steps = [("A", rule()) for _ in range(rng.randint(2, 6))]
+    if rng.random() < 0.5: steps.append(("F", rng.choice(states)))
+    steps.append(("Y",))
+    for _ in range(rng.randint(2, 8)):
+        x = rng.random()
+        if x < 0.5: steps.append(("Z", rule()))
+        elif x < 0.7: steps.append(("A", rule()))
+        elif x < 0.78: steps.append(("W",))
+        elif x < 0.84: steps.append(("H", rng.choice(states)))
+        elif x < 0.9: steps.append(("Y",))
+        else: steps.append(full_read(rng, steps, states, syms, 3))
+    steps.append(full_read(rng, steps, states, syms))
+    return fmt(steps)
+
 def rand_seq(rng, maxlen):
     states = list(range(rng.randint(1, 5))) if rng.random() < 0.8 else rng.sample(range(0, 200), rng.randint(1, 5))
     syms = list(range(rng.randint(1, 4)))
@@ -185,6 +208,7 @@ def cases(rng, tier):
     cs = [(l, "corpus") for l in CORPUS]
     cs += [(l, "exhaustive") for l in exhaustive(3 if tier == "quick" else 4)]
     cs += [(l, "targeted") for l in targeted(rng, 1500 if tier == "quick" else 20000)]
+    cs += [(bystander_seq(rng), "targeted_bystander") for _ in range(1200 if tier == "quick" else 20000)]
     n = 4000 if tier == "quick" else 80000
     cs += [(rand_seq(rng, rng.choice([5, 12, 30])), "random") for _ in range(n)]
     return cs
